@@ -164,7 +164,8 @@ impl Case {
     }
     let mut top = vec![("info", B::dict(info))];
     if has("dress-created-by") {
-      top.push(("created by", B::s("imdl/0.1.14")));
+      // (the very string this build writes into its own torrents, when it could be found out)
+      top.push(("created by", B::s(OWN_CREATED_BY.get().map(|s| s.as_str()).unwrap_or("imdl/0.1.14"))));
       top.push(("comment", B::s("made by the program itself, so surely fine")));
       top.push(("creation date", B::Int(1_600_000_000)));
       top.push(("encoding", B::s("UTF-8")));
@@ -177,6 +178,23 @@ impl Case {
       String::new()
     } else {
       f.path.join("/")
+    }
+  }
+}
+
+/// `created by` as this build of imdl writes it (read once from a torrent it is made to create)
+pub static OWN_CREATED_BY: std::sync::OnceLock<String> = std::sync::OnceLock::new();
+
+pub fn learn_own_created_by(ctx: &Ctx) {
+  if OWN_CREATED_BY.get().is_some() {
+    return;
+  }
+  let sb = Sandbox::new(&ctx.work, "cby");
+  sb.write("x", b"x");
+  let out = Cmd::new(&ctx.imdl, &["torrent", "create", "--input", "x", "--output", "x.torrent"]).cwd(&sb.root).literal().run();
+  if out.ok() {
+    if let Some(cb) = std::fs::read(sb.path("x.torrent")).ok().and_then(|t| bencode::decode(&t).ok()).and_then(|v| v.get("created by").and_then(|c| c.as_str()).map(|s| s.to_string())) {
+      let _ = OWN_CREATED_BY.set(cb);
     }
   }
 }
@@ -257,6 +275,8 @@ pub struct Obs {
   pub signal: Option<i32>,
   pub stderr: String,
   pub changed: bool,
+  /// the run was made with the global `--quiet` (the verdict is the same; nothing is printed)
+  pub quiet: bool,
 }
 
 pub fn observe(ctx: &Ctx, c: &Case) -> Obs {
@@ -346,10 +366,15 @@ pub fn observe(ctx: &Ctx, c: &Case) -> Obs {
       cmd = Cmd::args_owned(&ctx.imdl, args).cwd(&sb.path(w));
     }
   }
+  // a fifth of the runs are made with --quiet: what is reported changes (nothing is), what is decided does not
+  let quiet = fnv_str(&format!("{}{}", c.label, hex(&c.pieces))) % 5 == 0;
+  if quiet {
+    cmd.args.insert(0, "--quiet".into());
+  }
   cmd = cmd.timeout_s(120);
   let out = cmd.run();
   let after = snapshot(&sb.root);
-  Obs { code: out.code, signal: out.signal, stderr: out.stderr_s(), changed: before != after }
+  Obs { code: out.code, signal: out.signal, stderr: out.stderr_s(), changed: before != after, quiet }
 }
 
 fn model_line(c: &Case) -> String {
@@ -427,7 +452,7 @@ pub fn judge(c: &Case, o: &Obs, ans: &str, prop: &str) -> (Option<String>, Optio
       let want = if *good == "1" { Some(0) } else { Some(1) };
       if o.code != want {
         md = Some(format!("model verdict good={good}, implementation exit {:?}", o.code));
-      } else if *good == "0" {
+      } else if *good == "0" && !o.quiet {
         // named files: every (path, kind) of the model appears on stderr and vice versa
         let mut me: Vec<(String, String)> = if *errs == "-" {
           vec![]
@@ -844,6 +869,7 @@ fn run_cases(ctx: &Ctx, prop: &str, cases: Vec<Case>, report: &mut Report) {
 }
 
 pub fn run_c03(ctx: &Ctx) -> Report {
+  learn_own_created_by(ctx);
   let mut report = Report::new(
     "harness-built torrents (own bencode writer): single/multi, 14 piece lengths plus 0 and >=2^32, md5 present/absent/wrong, piece list shortened/extended/altered, \
      listed lengths off by one, duplicate paths, changed piece length; crossed with trees (matching, missing, longer, shorter, flipped, swapped, directory, parent-is-file) and the four \
@@ -1021,6 +1047,7 @@ fn corpus_c03() -> Vec<Case> {
 }
 
 pub fn run_c13(ctx: &Ctx) -> Report {
+  learn_own_created_by(ctx);
   let mut report = Report::new(
     "hostile multi-file torrents: an escaping path (.. components, a/../.., separators inside a component, leading `.`, absolute component) at every position among ordinary files, \
      a decoy with matching bytes (and md5) planted at the escaped location, three content-root selections; whole-sandbox snapshot before/after; all cases non-trivial; distinct by case hash",
@@ -1093,6 +1120,27 @@ pub fn run_c02(ctx: &Ctx) -> Report {
   for r in results {
     report.merge(r);
   }
+  // a wide tree: over a thousand files, every one of them shallow (limits are per path, not per torrent)
+  if ctx.replay.is_none() || super::replay_cases(ctx).map(|rc| rc.iter().any(|v| v.get("wide_tree").is_some())).unwrap_or(false) {
+    let sb = Sandbox::new(&ctx.work, "c02w");
+    for d in 0..30 {
+      for f in 0..36 {
+        sb.write(&format!("in/wide/d{d:02}/f{f:02}"), &[(d * 36 + f) as u8; 3]);
+      }
+    }
+    let case = json!({"wide_tree": "30 directories of 36 files"});
+    report.case(Some(fnv_str(&case.to_string())));
+    report.hit("history:wide-tree");
+    let c = Cmd::new(&ctx.imdl, &["torrent", "create", "--input", "in/wide", "--piece-length", "16KiB"]).cwd(&sb.root).run();
+    let v = Cmd::new(&ctx.imdl, &["torrent", "verify", "--input", "in/wide.torrent"]).cwd(&sb.root).run();
+    std::fs::write(sb.path("in/wide/d07/f11"), b"xyz").unwrap();
+    let v2 = Cmd::new(&ctx.imdl, &["torrent", "verify", "--input", "in/wide.torrent"]).cwd(&sb.root).run();
+    if !c.ok() || !v.ok() {
+      report.fail("property", "verify-after-create", case, format!("create exit {:?}, verify of the untouched tree exit {:?}: {}", c.code, v.code, v.stderr_s().lines().last().unwrap_or("")));
+    } else if v2.code != Some(1) {
+      report.fail("property", "verify-accepts-changed-content", case, format!("after changing d07/f11: exit {:?}, report: {}", v2.code, v2.stderr_s().lines().take(3).collect::<Vec<_>>().join(" | ")));
+    }
+  }
   report
 }
 
@@ -1105,6 +1153,8 @@ fn history(ctx: &Ctx, seed: u64) -> Report {
   let single = rng.chance(1, 4);
   let md5 = rng.chance(1, 2);
   let rename = rng.chance(1, 3);
+  // (the content is called `data`, or something with dots in it: the default torrent name is the whole last component)
+  let dname: &str = *rng.pick(&["data", "data", "album.v2", "notes.txt", "v1.2.3"]);
   // ordinary names, and names that merely look special: dots in odd places, other platforms' separators, spaces, unicode
   let names = ["a", "b", "c/d", "c/e", "f/g/h", "z", "to be continued...txt", "disc 1..2/x", "..rc", "v1..", "a\\b", "x y/ü", "-dash", "~tilde", "%41", "trailing.", "CON", "日本/語"];
   let mut orig: Vec<(String, Vec<u8>)> = Vec::new();
@@ -1131,16 +1181,16 @@ fn history(ctx: &Ctx, seed: u64) -> Report {
   }
   let write_orig = |sb: &Sandbox, orig: &Vec<(String, Vec<u8>)>| {
     if single {
-      sb.write("in/data", &orig[0].1);
+      sb.write(&format!("in/{dname}"), &orig[0].1);
     } else {
-      sb.mkdir("in/data");
+      sb.mkdir(&format!("in/{dname}"));
       for (n, d) in orig {
-        sb.write(&format!("in/data/{n}"), d);
+        sb.write(&format!("in/{dname}/{n}"), d);
       }
     }
   };
   write_orig(&sb, &orig);
-  let mut create: Vec<String> = ["torrent", "create", "--input", "in/data", "--piece-length"].iter().map(|s| s.to_string()).collect();
+  let mut create: Vec<String> = ["torrent".to_string(), "create".into(), "--input".into(), format!("in/{dname}"), "--piece-length".into()].to_vec();
   create.push(p.to_string());
   for l in ["small-piece-length", "uneven-piece-length"] {
     create.push("--allow".into());
@@ -1150,7 +1200,7 @@ fn history(ctx: &Ctx, seed: u64) -> Report {
     create.push("--md5".into());
   }
   // (a name may hold a separator or dots: it is a label, not a location - the torrent then needs an explicit output)
-  let new_name: &str = if rename { *rng.pick(&["renamed", "renamed", "AC/DC - Live", "a/b", "name.with.dots", "..", "x/"]) } else { "data" };
+  let new_name: &str = if rename { *rng.pick(&["renamed", "renamed", "AC/DC - Live", "a/b", "name.with.dots", "..", "x/"]) } else { dname };
   // (or the torrent file is called something else than what it describes)
   let odd_output = !rename && rng.chance(1, 4);
   if rename {
@@ -1179,7 +1229,7 @@ fn history(ctx: &Ctx, seed: u64) -> Report {
     return r;
   };
   let verify_args: Vec<String> = if rename {
-    vec!["torrent".into(), "verify".into(), "--input".into(), torrent_rel.into(), "--content".into(), "in/data".into()]
+    vec!["torrent".into(), "verify".into(), "--input".into(), torrent_rel.into(), "--content".into(), format!("in/{dname}")]
   } else {
     // default locations on both sides
     vec!["torrent".into(), "verify".into(), "--input".into(), torrent_rel.into()]
@@ -1217,7 +1267,7 @@ fn history(ctx: &Ctx, seed: u64) -> Report {
   ops.push(Op::Verify);
   let mut edits = 0;
   let mut trace: Vec<String> = Vec::new();
-  let path_of = |n: &str| if single { "in/data".to_string() } else { format!("in/data/{n}") };
+  let path_of = |n: &str| if single { format!("in/{dname}") } else { format!("in/{dname}/{n}") };
   for op in ops {
     trace.push(format!("{op:?}"));
     match op {
@@ -1274,7 +1324,7 @@ fn history(ctx: &Ctx, seed: u64) -> Report {
         edits += 1;
       }
       Op::RemoveAll => {
-        let root = sb.path("in/data");
+        let root = sb.path(&format!("in/{dname}"));
         let _ = std::fs::remove_file(&root);
         let _ = std::fs::remove_dir_all(&root);
         for (n, _) in &orig {
@@ -1285,7 +1335,7 @@ fn history(ctx: &Ctx, seed: u64) -> Report {
       Op::AddUnrelated => {
         if !single {
           let tag = rng.below(1000);
-          sb.write(&format!("in/data/unrelated-{tag}"), &rng.bytes(7));
+          sb.write(&format!("in/{dname}/unrelated-{tag}"), &rng.bytes(7));
         } else {
           sb.write("in/unrelated", b"x");
         }
@@ -1312,9 +1362,9 @@ fn history(ctx: &Ctx, seed: u64) -> Report {
         a.push("--force".into());
         a.push("--output".into());
         a.push("in/again.torrent".into());
-        let before = snapshot(&sb.path("in/data"));
+        let before = snapshot(&sb.path(&format!("in/{dname}")));
         let _ = Cmd::args_owned(&ctx.imdl, a).cwd(&sb.root).run();
-        if snapshot(&sb.path("in/data")) != before {
+        if snapshot(&sb.path(&format!("in/{dname}"))) != before {
           r.fail("property", "create-modified-content", json!({"history_seed": seed, "trace": trace}), "re-create changed the content".into());
         }
       }
@@ -1369,7 +1419,7 @@ fn history(ctx: &Ctx, seed: u64) -> Report {
           label: "history".into(),
         };
         let ans = model.ask(&model_line(&c));
-        let obs = Obs { code: o.code, signal: o.signal, stderr: o.stderr_s(), changed: false };
+        let obs = Obs { code: o.code, signal: o.signal, stderr: o.stderr_s(), changed: false, quiet: false };
         if let (_, Some(d)) = judge(&c, &obs, &ans, "C02") {
           r.fail("model", "C02.history", case, d);
         }
